@@ -1,6 +1,8 @@
 import IgrisModel.C12.Lemmas
 import IgrisModel.C12.LemParse
 import IgrisModel.C12.Orig
+import IgrisModel.C12.LemEnd
+import IgrisModel.C12.LemDprint
 /-!
   C12 — property theorems.
 
@@ -223,7 +225,68 @@ theorem atof32_ub_witness :
       [48, 46, 49, 48, 48, 48, 48, 48, 48, 48, 48, 48, 48, 48, 48, 48, 48, 48, 48, 48, 48, 0] = none := by
   decide +kernel
 
-/-! ## D. the routines as they were before the `fix:` commits (Orig.lean) -/
+/-- The reported end does not depend on the arithmetic: for EVERY instance (in
+    particular the software binary64 the driver runs, and IEEE hardware as far as
+    it is modelled by it) igris_atof64 reports the end of the literal. -/
+theorem atof64_end_any_arithmetic {F : Type} [FloatLike F] (L : Literal) (rest : List Nat)
+    (hwf : L.WF) (hst : Stops L rest) :
+    (atof64 (F := F) (L.text ++ rest)).map (fun x => x.2) = some L.text.length := by
+  rw [atof64_end_indep (F := F) (G := Rat), atof64_Q L rest hwf hst]; rfl
+
+/-- the same for igris_atof32, whenever `local_pow` does not overflow (at most 18
+    fraction digits) and, for the sake of the Rat run it is derived from, the integer
+    part is below 2^32 -/
+theorem atof32_end_any_arithmetic_partial {F D : Type} [FloatLike F] [FloatLike D] (cvt : D → F)
+    (L : Literal) (rest : List Nat) (hwf : L.WF) (hst : Stops L rest)
+    (hip32 : valL L.ip < 2 ^ 32) (hfp18 : L.fracDigits.length ≤ 18) :
+    (atof32 (D := D) cvt (L.text ++ rest)).map (fun x => x.2) = some L.text.length := by
+  rw [atof32_end_indep (F := F) (G := Rat) (D := D) (E := Rat) cvt id, atof32_Q L rest hwf hst hip32 hfp18]; rfl
+
+/-! ## D. the debug printers (debug_printdec_double_prec; _float_prec widens exactly) -/
+
+theorem dprint_tokens {D : Type} [FloatLike D] (a : D) (prec : Int) :
+    (isNaN a = true → dprintDouble a prec = some [110, 97, 110]) ∧
+    (isNaN a = false → isInf a = true →
+      dprintDouble a prec = some ((if lt (ofInt 0) a then 43 else 45) :: [105, 110, 102])) := by
+  constructor
+  · intro h; simp [dprintDouble, h, tokNan]
+  · intro h1 h2; simp [dprintDouble, h1, h2, tokInf]
+
+/-- Over exact arithmetic, for |a| < 2^64 - 1 and every precision (clamped to
+    0..18 =: p) the routine prints  [-] ip [. fr]  with `ip` the canonical decimal of
+    `N / 10^p`, `fr` exactly `p` digits with value `N % 10^p`, where `N` is
+    `|a| * 10^p` rounded half up to an integer: the printed number is within half a
+    unit of the last printed digit. -/
+theorem dprint_exact_Q (a : Rat) (prec : Int) (hr : absQ a < 18446744073709551615) :
+    let p : Nat := if prec > 18 then 18 else prec.toNat
+    ∃ (N : Nat) (ip fr : List Nat),
+      ((N : Nat) : Rat) ≤ absQ a * (10 : Rat) ^ p + 1 / 2 ∧ absQ a * (10 : Rat) ^ p + 1 / 2 < ((N : Nat) : Rat) + 1 ∧
+      dprintDouble a prec = some ((if a < 0 then [45] else []) ++ ip ++ (if p > 0 then 46 :: fr else [])) ∧
+      AllDigits ip ∧ Canonical ip ∧ valL ip = N / 10 ^ p ∧
+      AllDigits fr ∧ fr.length = p ∧ valL fr = N % 10 ^ p := by
+  intro p
+  have hs0 : 0 ≤ absQ a * (10 : Rat) ^ p + 1 / 2 := by
+    have := Rat.mul_nonneg (absQ_nonneg a) (Rat.le_of_lt (pow10_pos p)); grind
+  have hf0 : 0 ≤ (absQ a * (10 : Rat) ^ p + 1 / 2).floor := Rat.le_floor_iff.mpr (by simpa using hs0)
+  obtain ⟨N, hN⟩ : ∃ N : Nat, (absQ a * (10 : Rat) ^ p + 1 / 2).floor = (N : Int) :=
+    ⟨(absQ a * (10 : Rat) ^ p + 1 / 2).floor.toNat, by omega⟩
+  have hfl := Rat.floor_le (absQ a * (10 : Rat) ^ p + 1 / 2)
+  have hfu := Rat.lt_floor_add_one (absQ a * (10 : Rat) ^ p + 1 / 2)
+  rw [hN] at hfl hfu
+  have hcq : (((N : Int)) : Rat) = (N : Rat) := Rat.intCast_natCast N
+  have hfu' : absQ a * (10 : Rat) ^ p + 1 / 2 < (N : Rat) + 1 := by
+    have : (((N : Int) + 1 : Int) : Rat) = (N : Rat) + 1 := by simp [Rat.intCast_add]; rw [hcq]
+    rw [this] at hfu; exact hfu
+  rw [hcq] at hfl
+  obtain ⟨fr, h1, h2, h3, h4, h5, h6, h7⟩ := dprint_Q_core a prec hr p N rfl (by rw [hN]; simp)
+  exact ⟨N, _, fr, hfl, hfu', h1, h5, h6, h7, h2, h3, h4⟩
+
+example : absQ (-(96 / 100) : Rat) < 18446744073709551615 := by decide +kernel
+
+/-- without the range hypothesis the statement is false: `(uint64_t)a` for a = 2^64 -/
+theorem dprint_range_witness : dprintDouble (18446744073709551616 : Rat) 2 = none := by decide +kernel
+
+/-! ## E. the routines as they were before the `fix:` commits (Orig.lean) -/
 
 /-- "1e-2" was -100: the '-' of the exponent went to the mantissa sign -/
 theorem atof64Orig_sign_witness :
